@@ -6,7 +6,7 @@ set -e
 wt="$1"; name="$2"; prop="$3"; target="$4"; runpat="$5"; pkg="$6"; needs="$7"
 export GOFLAGS=-mod=mod GOPROXY=off GOSUMDB=off GOTOOLCHAIN=local
 out=/verif/seeded/$name; mkdir -p $out
-(cd $wt && git diff -- . ':!**/zz_contracts_verif.go') > $out/patch.diff
+(cd $wt && git diff -- . ':!**/zz_contracts_verif.go' ':!zz_contracts_verif.go') > $out/patch.diff
 cp $wt/DEMO/*_test.go.txt $out/ 2>/dev/null || true
 cp $wt/DEMO/README.md $out/README.agent.md 2>/dev/null || true
 demo=$(ls $out/*_test.go.txt | head -1)
